@@ -1,7 +1,7 @@
 import inspect
 from enum import Enum
 from functools import wraps
-from typing import Any, Callable, List, Dict
+from typing import Any, Callable, List, Dict, Tuple
 
 from pedantic.decorators.fn_deco_validate.exceptions import ValidateException, TooManyArguments
 from pedantic.decorators.fn_deco_validate.parameters import Parameter, ExternalParameter
@@ -55,7 +55,8 @@ def validate(
                 if 'self' in result:
                     return func(result.pop('self'), **result)
 
-                return func(*result.values())
+                positional, by_name = _split_by_signature(result=result)
+                return func(*positional, **by_name)
 
             if return_as == ReturnAs.KWARGS_WITHOUT_NONE:
                 result = {k: v for k, v in result.items() if v is not None}
@@ -73,7 +74,8 @@ def validate(
                 if 'self' in result:
                     return await func(result.pop('self'), **result)
 
-                return await func(*result.values())
+                positional, by_name = _split_by_signature(result=result)
+                return await func(*positional, **by_name)
 
             if return_as == ReturnAs.KWARGS_WITHOUT_NONE:
                 result = {k: v for k, v in result.items() if v is not None}
@@ -82,6 +84,27 @@ def validate(
                 return await func(result.pop('self'), **result)
 
             return await func(**result)
+
+        def _split_by_signature(result: Dict[str, Any]) -> Tuple[List[Any], Dict[str, Any]]:
+            """
+                Values that are handed over positionally must follow the order of the signature (not the order
+                in which the caller passed them), everything else is passed by name.
+            """
+
+            signature_parameters = inspect.signature(func).parameters
+
+            if any(p.kind == p.VAR_POSITIONAL for p in signature_parameters.values()):
+                return list(result.values()), {}
+
+            positional_names = []
+
+            for name, p in signature_parameters.items():
+                if name not in result or p.kind not in (p.POSITIONAL_ONLY, p.POSITIONAL_OR_KEYWORD):
+                    break
+
+                positional_names.append(name)
+
+            return [result[n] for n in positional_names], {k: v for k, v in result.items() if k not in positional_names}
 
         def _wrapper_content(*args, **kwargs) -> Dict[str, Any]:
             result = {}
